@@ -86,6 +86,9 @@ def rec_of(kind, r):
         return ["rec", DS1, [t(), V.I(r.randint(0, 9))], m]
     if kind == "S2":
         return ["rec", DS2, [t(), V.I(r.randint(0, 9))], m]
+    if kind == "CL":
+        # a type made with the copy constructor from a descriptor of ANOTHER name that was in use before
+        return ["rec", ["clone/of_c", DC[1]], [t()], dict(m, _clone_of=DC[0])]
     if kind == "HAB":  # inner collision: one frame holds records of A and of B
         return ["rec", DHL, [["list", [rec_of("A", r), rec_of("B", r)]], t()], m]
     if kind == "GAB":
@@ -93,7 +96,7 @@ def rec_of(kind, r):
     raise ValueError(kind)
 
 
-KINDS = ["A", "B", "C", "C2", "P", "H", "HL", "G", "Z", "GS1", "GS2", "S1", "S2"]
+KINDS = ["A", "B", "C", "C2", "P", "H", "HL", "G", "Z", "GS1", "GS2", "S1", "S2", "CL"]
 
 
 def EXHAUSTIVE(tier):
